@@ -6,8 +6,9 @@ sys.path.insert(0, os.path.join(V, 'vf'))
 import props as P
 ALL = ['C%02d' % i for i in range(1, 19)]
 checks = []
+READY = set(open(os.path.join(V, 'vf', 'ready.txt')).read().split())
 for pid in ALL:
-    if pid not in P.PROPS or not P.PROPS[pid].get('claimed', True):
+    if pid not in P.PROPS or pid not in READY or not P.PROPS[pid].get('claimed', True):
         continue
     s = P.PROPS[pid]
     checks.append({
